@@ -81,7 +81,7 @@ def check(d, props):
 
 
 if __name__ == "__main__":
-    mode, d = sys.argv[1], os.path.abspath(sys.argv[2])
+    mode, d = sys.argv[1], os.path.abspath(sys.argv[2] if os.path.isdir(sys.argv[2]) else os.path.join(VERIF, "seeded", sys.argv[2]))
     if mode == "confirm":
         print(json.dumps(confirm(d), indent=1))
     else:
